@@ -1138,7 +1138,12 @@ func (sc *scenario) run(maxOps int) {
 			}
 		default:
 			l := uint64(len(n.AllBlocks()))
-			w.Read(n, uint64(r.Int63n(int64(l)+3)))
+			if r.Intn(6) == 0 {
+				// heights far beyond the tip, up to the largest uint64 (where h+1 and h+limit wrap)
+				w.Read(n, pick(r, []uint64{^uint64(0), ^uint64(0) - 1, 1 << 63, 1<<63 - 1, 1 << 32, l + 1000}))
+			} else {
+				w.Read(n, uint64(r.Int63n(int64(l)+3)))
+			}
 		}
 	}
 }
